@@ -52,6 +52,7 @@ def item (K : Closures) (pc : Cfg) : Val → Text
     match l.text with
     | some t => padValue (!pc.nspad) (pc.encapv t)
     | none => unknownText
+  | .zstk _ | .zcnd _ => []      -- a zero-valued Stack / Condition (any form) contributes nothing (repair F38)
   | _ => unknownText
 
 def items (K : Closures) (pc : Cfg) : List Val → List Text
